@@ -231,7 +231,26 @@ func (t *Type) IsSimpleType() bool {
 
 func ParseType(vt reflect.Type, def string) (*Type, error) {
 	var i int
-	return doParseType(vt, def, &i, true)
+	ret, err := doParseType(vt, def, &i, true)
+	if err != nil {
+		return nil, err
+	}
+
+	/* nothing may follow the type */
+	if tk, _ := readToken(def, &i, true); tk != "" {
+		return nil, ESyntax(i-len(tk), def, "unexpected token "+tk)
+	}
+	return ret, nil
+}
+
+// isKeyword reports whether tv is one of the keywords of tag.
+func isKeyword(tag Tag, tv string) bool {
+	for _, kw := range strings.Split(keywordTab[tag], " ") {
+		if kw == tv {
+			return true
+		}
+	}
+	return false
 }
 
 func isident(c byte) bool {
@@ -369,7 +388,7 @@ func doParseType(vt reflect.Type, def string, i *int, allowPtrs bool) (*Type, er
 	if def != "" {
 		if tv, et := readToken(def, i, false); et != nil {
 			return nil, et
-		} else if !strings.Contains(keywordTab[tag], tv) {
+		} else if !isKeyword(tag, tv) {
 			if !isident0(tv[0]) {
 				return nil, mkMistyped(*i-len(tv), def, tv, tag, vt)
 			} else if ok, ex := doMatchStruct(vt, def, i, &tv); ex != nil {
